@@ -315,6 +315,7 @@ func (m *Morass) Clear() error {
 			m.chunk = make(sorter, 0, m.chunkSize)
 		}
 	default:
+		m.chunk = m.chunk[:0]
 	}
 
 	return nil
